@@ -41,11 +41,52 @@ class Evo:
         ft = [f for f in fwd if f is not self.forward and f not in below and not self._is_delegator(f)]
         it_ = [f for f in inv if f is not self.inverse and f not in below and not self._is_delegator(f)]
         if len(ft) != 1 or len(it_) != 1:
+            # coefficient helpers shared by both directions compute but do not touch the working array: the
+            # transform is the candidate that writes an attribute the descent itself works on
+            scratch = self._scratch_attrs()
+            ft2 = [f for f in ft if self._writes_attr(f, scratch)]
+            it2 = [f for f in it_ if self._writes_attr(f, scratch)]
+            if len(ft2) == 1 and len(it2) == 1:
+                ft, it_ = ft2, it2
+        if len(ft) != 1 or len(it_) != 1:
             raise AnalysisError(f'coordinate transforms not recognised: {[f.name for f in ft]}, {[f.name for f in it_]}')
         self.p2d, self.d2p = ft[0], it_[0]
         self.node_fn = self._array_callee(self.forward, self.level_callees_fwd)
         self.numbr_fn = self._array_callee(self.inverse, self.level_callees_inv)
         self.heavy = {f.name for f in (self.node_fn, self.numbr_fn) if f is not None}
+
+    def _scratch_attrs(self) -> Set[str]:
+        """Attributes of self that the forward descent stores into (element-wise or whole)."""
+        out: Set[str] = set()
+        selfn = self.forward.param_names[0]
+        for n in ast.walk(self.forward.node):
+            tg = []
+            if isinstance(n, ast.Assign):
+                tg = n.targets
+            elif isinstance(n, ast.AugAssign):
+                tg = [n.target]
+            for t in tg:
+                while isinstance(t, ast.Subscript):
+                    t = t.value
+                if isinstance(t, ast.Attribute) and isinstance(t.value, ast.Name) and t.value.id == selfn:
+                    out.add(t.attr)
+        return out
+
+    def _writes_attr(self, f: FuncInfo, attrs: Set[str]) -> bool:
+        selfn = f.param_names[0] if f.param_names else 'self'
+        for n in ast.walk(f.node):
+            tg = []
+            if isinstance(n, ast.Assign):
+                tg = n.targets
+            elif isinstance(n, ast.AugAssign):
+                tg = [n.target]
+            for t in tg:
+                while isinstance(t, ast.Subscript):
+                    t = t.value
+                if isinstance(t, ast.Attribute) and isinstance(t.value, ast.Name) and t.value.id == selfn and \
+                        t.attr in attrs:
+                    return True
+        return False
 
     def _closure(self, f: FuncInfo) -> List[FuncInfo]:
         out: List[FuncInfo] = []
